@@ -389,7 +389,7 @@ impl Property for C15 {
                         let sc2 = sc.clone();
                         let (t, ok) = on_big_stack(move || {
                             let t0 = thread_cpu_seconds();
-                            let r = driver::run(&sc2);
+                            let r = driver::run_opts(&sc2, &driver::RunOpts { record_charges: false, light: true });
                             (thread_cpu_seconds() - t0, r.map(|h| h.is_ok()))
                         });
                         if ok != Ok(true) {
